@@ -163,12 +163,18 @@ def check(index, ctx):
         want = next((c for c in a.mro if c in b.mro), None)
         res = I.run_paths(lambda: I.call_value(FV(lca, None), [ClassV(a), ClassV(b)], {}, lca.node, None))
         got = {r.value.cls.name if isinstance(r.value, ClassV) else repr(r.value) for r in res if r.kind == "return"}
+        nonclass = [r for r in res if r.kind == "return" and not isinstance(r.value, ClassV)]
+        blk = [e for r in res for e in _pipe.blocking(r)]
+        if nonclass or blk:
+            why = f"{blk[0]['loc']} `{blk[0]['text']}` ({blk[0].get('why', '')})" if blk else f"returned value {sorted(got)} is not a class the engine could determine"
+            ctx.undecided("R4", f"_least_common_ancestor({a.name}, {b.name})", "construct outside the analysed subset: " + why, lca.loc())
+            continue
         ctx.require(got == {want.name} if want else False, "R4", f"_least_common_ancestor({a.name}, {b.name})", f"= {want.name if want else '?'}",
                     f"returns {sorted(got)} but the most specific common base is {want.name if want else '?'}", lca.loc(), derivation={"mro_first": [c.name for c in a.mro]})
     ctx.floor("dictionary types", len(dict_types), 6)
     un = index.find_function(f"{T}._utils._union")
     if un is not None:
-        uses = any(isinstance(n, ast.Call) and isinstance(n.func, ast.Name) and n.func.id == lca.name for n in ast.walk(un.node))
+        uses = any(isinstance(n, ast.Name) and n.id == lca.name and isinstance(n.ctx, ast.Load) for n in ast.walk(un.node))  # called directly or folded with reduce()
         ctx.require(uses, "R4", "_union folds _least_common_ancestor over the member types", "uses the helper", "_union does not determine its result type with _least_common_ancestor", un.loc(), nontrivial=False)
     # ------------------------------------------------------------------------------------------------ R5
     for mname in MUTATORS:
